@@ -335,9 +335,15 @@ func runC01(c *eng.Ctx) {
 		rm := c.One(d, eng.CallTo("var:kv.removeFunc"), "removeFunc")
 		facts := p.MustFacts(d)
 		fs := facts.At(rm.Instr)
-		isPrefix := facts.Find(fs, "true", func(dd string, _ ssa.Value) bool { return strings.Contains(dd, "HasPrefix(") && strings.Contains(dd, "MANIFEST") }, nil)
-		notCur := facts.Find(fs, "ne", func(dd string, _ ssa.Value) bool { return strings.Contains(dd, "#") || strings.Contains(dd, "fileName") || strings.HasPrefix(dd, "files") },
-			func(dd string, _ ssa.Value) bool { return strings.Contains(dd, "ManifestFileName(") && strings.Contains(dd, "ManifestFileNumber()") })
+		isPrefix := facts.Find(fs, "true", func(dd string, _ ssa.Value) bool {
+			return strings.Contains(dd, "HasPrefix(") && strings.Contains(dd, "MANIFEST")
+		}, nil)
+		notCur := facts.Find(fs, "ne", func(dd string, _ ssa.Value) bool {
+			return strings.Contains(dd, "#") || strings.Contains(dd, "fileName") || strings.HasPrefix(dd, "files")
+		},
+			func(dd string, _ ssa.Value) bool {
+				return strings.Contains(dd, "ManifestFileName(") && strings.Contains(dd, "ManifestFileNumber()")
+			})
 		c.Check(len(isPrefix) > 0, "only-manifests", rm.Instr, d, "only files with the manifest prefix are removed at store level", "facts: "+strings.Join(facts.Render(fs), " ; "))
 		c.Check(len(notCur) > 0, "never-the-live-manifest", rm.Instr, d, "the manifest named by the current manifest number is never removed", "facts: "+strings.Join(facts.Render(fs), " ; "))
 	})
